@@ -302,6 +302,69 @@ func c05R3(c *Ctx) {
 			}
 		}
 	}
+	// the prompt claim: while promptPipe is set the input pump hands every key to the stop question. Whoever sets it
+	// (compare-and-swap from nil) must, on the won edge, reach the worker that clears it — or clear it itself — before
+	// returning; and that worker clears it on every exit. Otherwise typed input is eaten for the rest of the session.
+	nClaim := 0
+	for _, f := range c.AllFns {
+		for _, ci := range callsIn(f, anyID) {
+			if !isAtomicOnField(ci, "promptPipe", "CompareAndSwap") || isNilConst(ci.Common().Args[2]) {
+				continue
+			}
+			call, isCall := ci.(*ssa.Call)
+			if !isCall {
+				continue
+			}
+			nClaim++
+			clears := func(in ssa.Instruction) bool {
+				c2, ok := in.(ssa.CallInstruction)
+				if !ok {
+					return false
+				}
+				if _, isGo := in.(*ssa.Go); !isGo && (isAtomicOnField(c2, "promptPipe", "Store") || isAtomicOnField(c2, "promptPipe", "CompareAndSwap")) {
+					return isNilConst(c2.Common().Args[len(c2.Common().Args)-1])
+				}
+				return false
+			}
+			startsClearingWorker := func(in ssa.Instruction) bool {
+				g, ok := in.(*ssa.Go)
+				if !ok {
+					return false
+				}
+				wk := g.Call.StaticCallee()
+				if wk == nil || len(wk.Blocks) == 0 {
+					return false
+				}
+				// the worker clears the claim on every exit: a deferred clear in its entry block, or a clear on every path
+				for _, x := range wk.Blocks[0].Instrs {
+					if d, isD := x.(*ssa.Defer); isD && clearsDeferred(d) {
+						return true
+					}
+				}
+				hit, _ := reachFrom(wk.Blocks[0], 0, isReturn, clears)
+				return hit == nil
+			}
+			var won *ssa.BasicBlock
+			for _, r := range referrersOf(call) {
+				if i, ok := r.(*ssa.If); ok {
+					nf := normFact(fact{V: i.Cond, Pol: true})
+					won = i.Block().Succs[0]
+					if !nf.Pol {
+						won = i.Block().Succs[1]
+					}
+				}
+			}
+			if won == nil {
+				c.bad("promptPipe/claim-released@"+c.fnName(f), c.ipos(call), "the result of claiming the prompt pipe is not branched on")
+				continue
+			}
+			hit, path := reachFrom(won, 0, isReturn, func(in ssa.Instruction) bool { return clears(in) || startsClearingWorker(in) })
+			c.check(hit == nil, "promptPipe/claim-released@"+c.fnName(f), c.ipos(call), "once the prompt pipe is claimed, the worker that releases it is started (or it is released) before the function returns", "the prompt pipe can stay claimed after the function returned: every later key is handed to a prompt that does not exist and typed input never reaches the server again", c.pathStr(path)...)
+		}
+	}
+	if nClaim == 0 {
+		c.undecided("promptPipe/claims", "no claim of the prompt pipe found")
+	}
 	w := c.fn("TrzszFilter.wrapOutput")
 	for _, ci := range callsIn(w, anyID) {
 		if !isAtomicOnField(ci, "skipUploadCommand", "Load") {
@@ -495,6 +558,8 @@ func c05R5(c *Ctx) {
 	// no writes into the input's backing array, in any function given the pump's chunk
 	pumps := map[string][]string{
 		"TrzszFilter.wrapOutput": {"(*trzsz.trzszDetector).detectTrzsz", "(*trzsz.TrzszFilter).detectOSC52", "trzsz.detectZmodem", "(*trzsz.zmodemTransfer).handleServerOutput", "(*trzsz.traceLogger).writeTraceLog"},
+		// the input pump reads into one buffer for the whole session and hands slices of it to the input handler
+		"TrzszFilter.wrapInput": {"(*trzsz.TrzszFilter).sendInput"},
 	}
 	for pump, callees := range pumps {
 		pf := c.fn(pump)
@@ -707,4 +772,12 @@ func stopLatchRule(c *Ctx) {
 		}
 		c.check(gated, "addReceivedData/enqueue-only-while-running", c.ipos(a), "bytes are queued only where 'stopped' was read false", "bytes are queued for a transfer that has stopped reading")
 	}
+}
+
+// clearsDeferred: a deferred call that stores nil into the prompt pipe.
+func clearsDeferred(d *ssa.Defer) bool {
+	if !isAtomicOnField(d, "promptPipe", "Store") {
+		return false
+	}
+	return isNilConst(d.Call.Args[1])
 }
